@@ -757,6 +757,10 @@ func (e *SpecEnv) evalCall(x SCall) SV {
 		return SV{Term: "(atoi " + arg(0).Term + ")", Typ: intT}
 	case "atoiOK":
 		return SV{Term: "(atoi_ok " + arg(0).Term + ")", Typ: boolT}
+	case "parseFloat64":
+		return SV{Term: "(pfloat " + arg(0).Term + ")", Typ: types.Typ[types.Float64]}
+	case "parseFloat64OK":
+		return SV{Term: "(pfloat_ok " + arg(0).Term + ")", Typ: boolT}
 	case "real":
 		v := arg(0)
 		if isReal(v.Typ) {
@@ -823,6 +827,15 @@ func (e *SpecEnv) evalCall(x SCall) SV {
 	}
 	if pf, ok := e.G.Pures[x.Fn]; ok {
 		return e.callPure(pf, x)
+	}
+	if o := e.Pkg.Scope().Lookup(x.Fn); o != nil && len(x.Args) == 1 {
+		// conversion to a named type of the package with the same representation (string-kinded, integer-kinded)
+		if tn, ok := o.(*types.TypeName); ok {
+			v := arg(0)
+			if (isString(tn.Type()) && isString(v.Typ)) || (isInt(tn.Type()) && isInt(v.Typ)) {
+				return SV{Term: v.Term, Typ: tn.Type()}
+			}
+		}
 	}
 	e.fail("unknown spec function %s", x.Fn)
 	return SV{}
@@ -986,4 +999,12 @@ func (e *SpecEnv) entryBound() string {
 		return "hp_$next0"
 	}
 	return e.Next0
+}
+
+func isInt(t types.Type) bool {
+	if t == nil {
+		return false
+	}
+	b, ok := t.Underlying().(*types.Basic)
+	return ok && b.Info()&types.IsInteger != 0
 }
